@@ -349,8 +349,24 @@ def translate_persist(repo, gen, write):
                             if isinstance(b, ast.FunctionDef) and b.name in HOOKS:
                                 hooks.append(f"{os.path.relpath(pth, repo)}:{n.name}.{b.name}")
         hooks.sort()
+        cattrs = []
+        for root, _dirs, files in os.walk(os.path.join(repo, "opfython")):
+            for f in sorted(files):
+                if not f.endswith(".py"):
+                    continue
+                pth = os.path.join(root, f)
+                for n in ast.walk(ast.parse(open(pth).read())):
+                    if isinstance(n, ast.ClassDef):
+                        for b in n.body:
+                            if isinstance(b, (ast.Assign, ast.AnnAssign, ast.AugAssign)):
+                                tg = b.targets[0] if isinstance(b, ast.Assign) else b.target
+                                cattrs.append(f"{os.path.relpath(pth, repo)}:{n.name}.{ast.unparse(tg)}")
+        cattrs.sort()
         out += ["/-- classes of the package that customise pickling / copying -/",
-                "def pickle_hooks : List String := [" + ", ".join('"' + h + '"' for h in hooks) + "]", ""]
+                "def pickle_hooks : List String := [" + ", ".join('"' + h + '"' for h in hooks) + "]", "",
+                "/-- data attributes defined at CLASS level (assignments in a class body, `__slots__` included) in the package's classes: such an\n"
+                "attribute is not in an instance's `__dict__` until it is assigned through `self`, so `pickle.dump(self)` / `__dict__.update` would not carry it -/",
+                "def class_data_attrs : List String := [" + ", ".join('"' + h + '"' for h in cattrs) + "]", ""]
         body = out
         err = None
     except Untranslatable as ex:
